@@ -14,7 +14,7 @@ structure Indent where
   needsBlockEnd : Bool
 deriving Repr
 
-inductive ImplState | possible | inside | explicitMapping
+inductive ImplState | possible | inside | explicitMapping | explicitKey
 deriving Repr, DecidableEq
 
 inductive Chomping | strip | clip | keep
@@ -35,7 +35,6 @@ structure Sc where
   tokensParsed : Nat
   tokenAvailable : Bool
   leadingWhitespace : Bool
-  flowMappingStarted : Bool
   implStates : List ImplState        -- head = top
 deriving Repr
 
@@ -46,7 +45,7 @@ def mkSc (kind : InKind) (cap : Nat) (text : Str) : Sc :=
     mark := ⟨0, 1, 0⟩, tokens := [], streamStartProduced := false, streamEndProduced := false
     adjacentValueAllowedAt := 0, simpleKeyAllowed := true, simpleKeys := [], indent := -1
     indents := [], flowLevel := 0, tokensParsed := 0, tokenAvailable := false
-    leadingWhitespace := true, flowMappingStarted := false, implStates := [] }
+    leadingWhitespace := true, implStates := [] }
 
 /-- lift an input operation -/
 def liftI (m : M In α) : S α := fun s =>
@@ -220,8 +219,9 @@ def endImplicitMapping (mark : Marker) : S Unit := do
   let s ← getS
   match s.implStates with
   | .inside :: r => do
-    modS fun s => { s with flowMappingStarted := false, implStates := .possible :: r }
+    modS fun s => { s with implStates := .possible :: r }
     pushTok (Span.empty mark) .flowMappingEnd
+  | .explicitKey :: r => modS fun s => { s with implStates := .possible :: r }
   | _ => pure ()
 
 def isWithinBlock : S Bool := fun s => .ok (!s.indents.isEmpty, s)
